@@ -111,6 +111,13 @@ def run(ctx):
     data = dict(data)
     data['X'] = data['X'] * units
     ctx.hist('units', units)
+    if name == 'ITML' and i % 3 == 2:
+      # constraints listed more than once (k copies of a constraint are k constraints: each has its own dual variable)
+      pi, yp = data['pairs_idx'], data['ypairs']
+      again = rng.integers(0, len(pi), size=max(2, len(pi) // 3))
+      data['pairs_idx'] = np.concatenate([pi, pi[again]])
+      data['ypairs'] = np.concatenate([yp, yp[again]])
+      ctx.hist('repeated_constraints', True)
     gam = [0.1, 1.0, 10.0, np.inf, float('inf')][int(rng.integers(0, 5))]   # infinity as numpy's constant and as another float object (e.g. after unpickling)
     kw = dict(gamma=gam, max_iter=int(rng.choice([1, 2, 5, 20, 200])),
               prior=prior if prior != 'array' else fits.spd_array(rng, d) / units ** 2,
